@@ -353,10 +353,6 @@ PROBES = {
         (root_schema(el("a", "xs:int", ' nillable="true"'), mixed=True), f'<root {XSI_DECL}>t<a xsi:nil="true"/></root>', {}),
         (root_schema(el("a", "xs:int", ' nillable="true"'), mixed=False), f'<root {XSI_DECL}><a xsi:nil="true"/></root>', {}),
     ),
-    "C02/nil-with-default-becomes-default": (
-        (root_schema(el("a", "xs:boolean", ' nillable="true" default="false"')), f'<root {XSI_DECL}><a xsi:nil="true"/></root>', {}),
-        (root_schema(el("a", "xs:boolean", ' nillable="true"')), f'<root {XSI_DECL}><a xsi:nil="true"/></root>', {}),
-    ),
     "C02/qname-child-of-mixed-type-written-in-clark-notation": (
         (root_schema(el("a", "xs:QName"), mixed=True), '<root xmlns:xs="http://www.w3.org/2001/XMLSchema">t<a>xs:string</a></root>', {}),
         (root_schema(el("a", "xs:QName"), mixed=False), '<root xmlns:xs="http://www.w3.org/2001/XMLSchema"><a>xs:string</a></root>', {}),
@@ -366,6 +362,13 @@ PROBES = {
          "<root><part><node>x</node></part>tail<size>s</size></root>", {}),
         (root_schema('<xs:element name="part"><xs:complexType><xs:sequence>' + el("node", "xs:string") + "</xs:sequence></xs:complexType></xs:element>" + el("size", "xs:string"), mixed=True),
          "<root><part><node>x</node></part>tail<size>s</size></root>", {}),
+    ),
+    "C02/global-element-added-by-extension-of-mixed-type-written-as-sibling-choice": tuple(
+        (XSH + f'''<xs:complexType name="T"><xs:sequence><xs:element name="v" type="xs:int"/></xs:sequence></xs:complexType>
+<xs:element name="g" type="T"/>
+<xs:complexType name="Base" mixed="{mixed}"><xs:sequence><xs:element name="note" type="T"/></xs:sequence></xs:complexType>
+<xs:complexType name="Ext" mixed="{mixed}"><xs:complexContent><xs:extension base="Base"><xs:sequence><xs:element ref="g" minOccurs="0"/></xs:sequence></xs:extension></xs:complexContent></xs:complexType>
+<xs:element name="root" type="Ext"/></xs:schema>''', doc, {}) for mixed, doc in (("true", "<root>t<note><v>1</v></note><g><v>2</v></g></root>"), ("false", "<root><note><v>1</v></note><g><v>2</v></g></root>"))
     ),
     "C02/compound-choice-loses-element-default": (
         (XSH + '<xs:element name="root"><xs:complexType><xs:choice maxOccurs="unbounded">' + el("a", "xs:decimal", ' default="1.5"') + el("b", "xs:string") + "</xs:choice></xs:complexType></xs:element></xs:schema>",
